@@ -50,6 +50,7 @@ type Cfg struct {
 	OutDir   string
 	Replay   string
 	Mode     string
+	Bin      string // binary to start workers from (default: this binary)
 }
 
 func LoadCfg() Cfg {
@@ -86,7 +87,11 @@ func SpawnWorkers(c Cfg, n int, extraEnv func(i int) []string, gomaxprocs func(i
 		wg.Add(1)
 		go func(i int) {
 			defer wg.Done()
-			cmd := exec.Command(os.Args[0], "-test.run", "^TestEngine$", "-test.timeout", "0", "-test.count", "1")
+			bin := os.Args[0]
+			if c.Bin != "" {
+				bin = c.Bin
+			}
+			cmd := exec.Command(bin, "-test.run", "^TestEngine$", "-test.timeout", "0", "-test.count", "1")
 			gmp := gomaxprocs(i)
 			cmd.Env = os.Environ()
 			if extraEnv != nil {
@@ -106,11 +111,12 @@ func SpawnWorkers(c Cfg, n int, extraEnv func(i int) []string, gomaxprocs func(i
 			lf.Close()
 			var p Partial
 			if err := ReadJSON(c.PartPath(i), &p); err != nil {
-				tail, _ := os.ReadFile(logf)
-				if len(tail) > 6000 {
-					tail = tail[len(tail)-6000:]
+				all, _ := os.ReadFile(logf)
+				head, tail := all, []byte(nil)
+				if len(all) > 8000 {
+					head, tail = all[:4000], all[len(all)-4000:]
 				}
-				errs[i] = fmt.Sprintf("worker %d left no result (%v / %v); log tail:\n%s", i, runErr, err, tail)
+				errs[i] = fmt.Sprintf("worker %d (%s) left no result (%v / %v); log head:\n%s\n...\nlog tail:\n%s", i, c.Mode, runErr, err, head, tail)
 				return
 			}
 			p.GoMaxProcs = gmp
